@@ -131,12 +131,12 @@ def oracle(ck):
 
 
 def run(ck):
-    ck.build_theorems("Properties/C19.v", deps=["Rms.vo"])
+    ck.build_theorems("Properties/C19.v", deps=["Rms.vo", "LeastSquares.vo"])
     correspondence(ck)
     oracle(ck)
     ck.cov["rule"] = "random grids (1..50 points, repeated points), ASD arrays over 6 decades, bands {inside, on grid points, wide, point, outside, none}; detrend orders 0..5 incl. N = order+1 and 2-sample series; DataFrame wrapper; Parseval link on white records"
     ck.samples = [dict(case="grid of 7 points, band on grid points"), dict(case="order 3 detrend, N=4")]
-    ck.assumptions += ["PARTIAL: np.polyfit returns the least-squares solution (normal-equation residual checked on every sampled series)", "Parseval link is statistical (6% allowance)"]
+    ck.assumptions += ["np.polyfit returns a solution of the normal equations (its residual is checked on every sampled series); the theorems for orders >= 1 are stated for any such solution", "Parseval link is statistical (6% allowance)"]
 
 
 def replay(rec):
